@@ -222,6 +222,11 @@ def d3(ck: Check) -> None:
         probs.append("descendant sets are not filled at one place")
     else:
         v = dm[0].value
+        local = None
+        if isinstance(v, ast.Name):
+            sd_ = fm.single_def(v.id, fm.cfgn(dm[0]))
+            if sd_:
+                local, v = v.id, sd_[1]
         inner = v.args[0] if isinstance(v, ast.Call) and callee_name(v) == "set" and v.args else v
         if not (isinstance(inner, ast.Call) and (dotted(inner.func) or "").endswith("descendants") and len(inner.args) == 2
                 and text(inner.args[0]) == f"{sdp}.dag" and text(inner.args[1]) == text(dm[0].targets[0].slice)):
@@ -229,7 +234,7 @@ def d3(ck: Check) -> None:
                          f"a node can be missed (node ids are not topologically ordered)")
         key = text(dm[0].targets[0].slice)
         selfadd = [n for n in own_walk(f.node) if isinstance(n, ast.Call) and isinstance(n.func, ast.Attribute) and n.func.attr == "add"
-                   and "descendant" in text(n.func.value) and n.args and text(n.args[0]) == key]
+                   and ("descendant" in text(n.func.value) or (local and text(n.func.value) == local)) and n.args and text(n.args[0]) == key]
         if not selfadd:
             probs.append("a node is not counted among its own descendants: a hot node itself could be an end point")
         lp = [l for l in fm.cfg.enclosing_loops(fm.cfgn(dm[0])) if isinstance(l, ast.For)]
@@ -250,6 +255,8 @@ def d3(ck: Check) -> None:
         probs.append("nodes with a hot descendant are not excluded from the end points")
     else:
         t = fm.f.parents[first[0]].test
+        while isinstance(t, ast.Call) and callee_name(t) == "bool" and len(t.args) == 1:
+            t = t.args[0]
         if not (isinstance(t, ast.BinOp) and isinstance(t.op, ast.BitAnd) and "descendant" in text(t.left) and "hot" in text(t.right)):
             probs.append(f"end-point test is `{text(t)}`")
     ck.ob("D3", fm, first[0] if first else f.node, not probs, "; ".join(probs) if probs else
